@@ -21,7 +21,7 @@ warnings.filterwarnings("ignore")
 
 DT = torch.float64
 KINDS = ["regular", "nested", "lazy", "sub", "tensorclass", "memmap", "shared", "params", "locked"]
-LAYOUTS = ["contiguous", "strided", "expanded", "offset", "zero_feat", "zero_batch", "mixed"]
+LAYOUTS = ["contiguous", "strided", "expanded", "offset", "zero_feat", "zero_batch", "mixed", "nontensor"]
 LOCKED_KINDS = ("memmap", "shared", "params", "locked")
 
 
@@ -180,7 +180,7 @@ def tc_class():
 def leaf_layout(layout, rng):
     if layout == "mixed":
         return rng.choice(["contiguous", "strided", "expanded", "offset"])
-    if layout in ("zero_feat", "zero_batch"):
+    if layout in ("zero_feat", "zero_batch", "nontensor"):
         return "contiguous"
     return layout
 
@@ -192,7 +192,10 @@ def build_plain(bs, layout, cnt, rng, nested, zero_feat):
         d["n"] = TensorDict({"x": make_leaf(tuple(bs) + (1,), leaf_layout(layout, rng), cnt)}, batch_size=bs)
     if zero_feat:
         d["z"] = torch.zeros(tuple(bs) + (0,), dtype=DT)
-    return TensorDict(d, batch_size=bs)
+    out = TensorDict(d, batch_size=bs)
+    if layout == "nontensor":
+        out.set_non_tensor("tag", "meta")      # a non-tensor entry next to the tensors
+    return out
 
 
 class Container:
@@ -224,6 +227,7 @@ class Container:
         elif kind == "memmap":
             inner = build_plain(bs, "contiguous" if layout not in ("zero_feat", "zero_batch") else layout, self.cnt, rng, True, False)
             d = tempfile.mkdtemp(prefix="c07mm_", dir=str(self.tmp))
+            self.prefix = d
             self.td = inner.memmap_(prefix=d)
         elif kind == "shared":
             inner = build_plain(bs, layout if layout in ("contiguous", "zero_batch", "zero_feat") else "contiguous", self.cnt, rng, True, zf)
@@ -253,17 +257,28 @@ class World:
 
     def __init__(self):
         self.tok = Tokens()
-        self.sids = {}       # data_ptr -> sid
+        self.sids = {}       # data_ptr | ("file", filename) -> sid
+        self.ptr2file = {}   # data_ptr of a mapping -> its file
         self.keep = []       # keep every tensor alive so that addresses are never recycled within a case
         self.empty_n = 0
 
     def sid_of(self, t, create=True):
+        """storage identity: the memory-mapped FILE when the tensor is (a view of) a memory-mapped tensor — two mappings of
+        one file are one storage, writes through one are read through the other —, else the address of the storage"""
         if t.numel() == 0:
             return None
         p = t.untyped_storage().data_ptr()
-        s = self.sids.get(p)
+        try:
+            fn = getattr(t, "filename", None)       # the property raises for a MemoryMappedTensor without file (shared memory)
+            fn = str(fn) if fn is not None else None
+        except Exception:
+            fn = None
+        if fn is not None:
+            self.ptr2file[p] = fn
+        key = ("file", self.ptr2file[p]) if p in self.ptr2file else p
+        s = self.sids.get(key)
         if s is None and create:
-            s = self.sids[p] = len(self.sids)
+            s = self.sids[key] = len(self.sids)
         return s
 
     def desc(self, t, create=True):
